@@ -291,8 +291,20 @@ impl C06 {
         let vars: Vec<&'static str> = if tier == Tier::Quick { vec!["$X", "$Y", "$Z"] } else { vec!["$X", "$Y", "$Z", "$W"] };
         let mut env = UEnv::new(&vars);
         let uni = universe(&vars, tier == Tier::Thorough);
-        let seqs = prior_sequences(&vars, &uni, seed, if tier == Tier::Quick { 30 } else { 80 });
+        let mut seqs = prior_sequences(&vars, &uni, seed, if tier == Tier::Quick { 30 } else { 80 });
         let priors = build_priors(&mut env, &seqs, if tier == Tier::Quick { 8 } else { 20 });
+        // every sequence of up to three variable-to-variable unifications (in every id order), and
+        // each of them followed by one unification with a constant: the mgu property over aliasing chains
+        let mut vpairs: Vec<(T, T)> = vec![];
+        for a in &vars { for b in &vars { vpairs.push((var(a), var(b))); } }
+        let maxlen = 3;
+        let mut layer: Vec<Vec<(T, T)>> = vec![vec![]];
+        for _ in 0..maxlen {
+            let mut next = vec![];
+            for sq in &layer { for p in &vpairs { let mut n = sq.clone(); n.push(p.clone()); next.push(n); } }
+            for sq in &next { seqs.push(sq.clone()); let mut withc = sq.clone(); withc.push((var(vars[0]), atom("a"))); seqs.push(withc); }
+            layer = next;
+        }
         let n_rand = if tier == Tier::Quick { 400_000 } else { 3_000_000 };
         C06 { env, uni, seqs, priors, n_rand, seed, deep_vars: vars }
     }
